@@ -76,9 +76,8 @@ func parseNode(b []byte) (*Node, []byte, bool) {
 		// a control value wrapping a BER structure (paging, Behera): mutate inside it as well
 		if n.Cls == 0 && n.Tag == 4 && len(content) >= 2 && content[0]&0x20 != 0 {
 			if inner, r2, ok := parseNode(content); ok && len(r2) == 0 {
-				n.Wrap = true
+				n.Wrap = true // Data keeps the bytes as read (printers use it); encode() uses Kids
 				n.Kids = []*Node{inner}
-				n.Data = nil
 			}
 		}
 	}
@@ -269,7 +268,12 @@ func mutationsAt(root *Node, p path) []mutation {
 	}})
 	if !target.Cons {
 		ms = append(ms, mutation{"empty" + ps, func(r *Node) bool { n, _, _ := get(r); n.unwrap(); n.Data = nil; return true }})
-		ms = append(ms, mutation{"long" + ps, func(r *Node) bool { n, _, _ := get(r); n.unwrap(); n.Data = []byte{1, 2, 3, 4, 5, 6, 7, 8, 9}; return true }})
+		ms = append(ms, mutation{"long" + ps, func(r *Node) bool {
+			n, _, _ := get(r)
+			n.unwrap()
+			n.Data = []byte{1, 2, 3, 4, 5, 6, 7, 8, 9}
+			return true
+		}})
 		ms = append(ms, mutation{"hibyte" + ps, func(r *Node) bool { n, _, _ := get(r); n.unwrap(); n.Data = []byte{0xff, 0xfe}; return true }})
 		if target.Wrap {
 			// the wrapper itself becomes a constructed octet string (ber accepts both forms)
